@@ -42,8 +42,38 @@ public:
 static CountingManager g_mm;      // vectors, maps, sets, deques
 static CountingManager g_mmList;  // lists only: its live count is an observable of the list model
 
+
+// ------------------------------------------------------------------------------------ element type
+// Built twice: with plain int elements, and (-DC20_ELEM) with a class that has user-provided copy
+// construction / assignment / destruction, counts its live instances and poisons itself when destroyed.
+// With it a double destroy, an assignment into a raw (never constructed or already destroyed) cell, a read
+// of a destroyed element and the smear of an overlapping element-wise copy in the wrong direction become
+// observable; libstdc++ turns std::copy/copy_backward over trivially copyable types into memmove, which hides
+// the direction.
+#if defined(C20_ELEM)
+struct Elem
+{
+    enum { ALIVE = 0x5a17c0de, DEAD = 0x0dead0ad };
+    static long live;
+    static long bad;
+    int v;
+    unsigned magic;
+    Elem(int x = 0) : v(x), magic(ALIVE) { ++live; }
+    Elem(const Elem& o) : v(o.val()), magic(ALIVE) { ++live; }
+    Elem& operator=(const Elem& o) { if (magic != unsigned(ALIVE)) ++bad; v = o.val(); return *this; }
+    ~Elem() { if (magic != unsigned(ALIVE)) ++bad; magic = DEAD; v = -777; --live; }
+    int val() const { if (magic != unsigned(ALIVE)) ++bad; return v; }
+    operator int() const { return val(); }
+};
+long Elem::live = 0;
+long Elem::bad = 0;
+typedef Elem VALT;
+#else
+typedef int VALT;
+#endif
+
 // ------------------------------------------------------------------------------------ vector
-typedef XalanVector<int> XVec;
+typedef XalanVector<VALT> XVec;
 
 struct VecPair
 {
@@ -89,7 +119,7 @@ struct XalanMapKeyTraits<CKey>
 };
 }
 
-typedef XalanMap<CKey, int> XMapBase;
+typedef XalanMap<CKey, VALT> XMapBase;
 
 struct XM : public XMapBase   // derived only to read the protected members
 {
@@ -173,7 +203,7 @@ static std::string show(SetPair& p, const std::string& pre, bool& bad)
 }
 
 // ------------------------------------------------------------------------------------ deque
-typedef XalanDeque<int> XDeq;
+typedef XalanDeque<VALT> XDeq;
 
 struct DeqPair
 {
@@ -216,7 +246,7 @@ static std::string show(DeqPair& p, bool& bad)
 }
 
 // ------------------------------------------------------------------------------------ list
-typedef XalanList<int> XLst;
+typedef XalanList<VALT> XLst;
 
 struct LstPair
 {
@@ -290,6 +320,16 @@ struct World
     }
 };
 
+static long total(World& w)
+{
+    long n = 0;
+    for (auto* p : w.vs) n += long(p->x.size());
+    for (auto* p : w.ms) n += long(p->x->size());
+    for (auto* p : w.ds) n += long(p->x->size());
+    for (auto* p : w.ls) n += long(p->x->size());
+    return n;
+}
+
 int main()
 {
     std::unique_ptr<World> w(new World);
@@ -306,6 +346,9 @@ int main()
             w.reset();
             leaked += g_mm.live + g_mmList.live;   // every block must be back once the containers are destroyed
             g_mm.live = 0; g_mmList.live = 0;
+#if defined(C20_ELEM)
+            leaked += Elem::live; Elem::live = 0; Elem::bad = 0;
+#endif
             w.reset(new World);
             poisoned = false;
             std::cout << "ok\n";
@@ -558,6 +601,29 @@ int main()
             bad = bad || b2;
         }
         else { std::cout << "bad\n"; continue; }
+        if (sub != "set")
+        {
+            // L = number of element objects alive: must be the number of elements held (each cell constructed
+            // exactly once before use and destroyed exactly once)
+            const long expected = total(*w);
+#if defined(C20_ELEM)
+            const long liveNow = Elem::live;
+            const bool elemBad = liveNow != expected || Elem::bad != 0;
+#else
+            const long liveNow = expected;
+            const bool elemBad = false;
+#endif
+            std::ostringstream lp;
+            lp << " L=" << liveNow;
+#if defined(C20_ELEM)
+            if (elemBad) lp << " elem(expected=" << expected << ",misuse=" << Elem::bad << ")";
+#endif
+            const std::string mark = " !std";
+            const bool marked = out.size() >= mark.size() && out.compare(out.size() - mark.size(), mark.size(), mark) == 0;
+            if (marked) out.insert(out.size() - mark.size(), lp.str()); else out += lp.str();
+            if (elemBad && !marked) out += mark;
+            if (elemBad) bad = true;
+        }
         if (bad) poisoned = true;
         std::cout << out << "\n";
     }
